@@ -8,8 +8,8 @@
   `baseGlyph` / `transformation` (modelled as immutable in the contracts).
 * bounded, exhaustive small scope: util.getMaxComponentDepth on EVERY component graph over 3 glyph names (each glyph: up to
   two components drawn from the three names and one missing name): raises InvalidFontData iff a cycle is reachable from the
-  start glyph; otherwise 0 < result <= true height iff the glyph has components.  (No deductive contract: "a cycle is
-  reachable" is a transitive-closure property the clause language cannot state.)
+  start glyph; otherwise result == height of the component tree.  (The acyclic half is ALSO a deductive contract in contracts/c02.py;
+  "a cycle is reachable => raises" is a transitive-closure property the clause language cannot state.)
 * bounded end-to-end observer: random UFOs -> compileTTF (flatten on/off, cubic conversion on/off, reversal on/off) -> save ->
   reload -> glyf / maxp compared with the independent renderer: point-for-point for line/quadratic outlines, mixed glyphs
   decomposed, pure composites keep their references, flattened composites have depth <= 1 and render the same shape,
@@ -184,8 +184,8 @@ def check_depth_graph(graph, start):
         return f"returned {r} although a cyclic component reference is reachable"
     if (r > 0) != (len(graph[start]) > 0):
         return f"returned {r} for a glyph with {len(graph[start])} components"
-    if not (r <= h):
-        return f"returned {r} > true height {h}"
+    if r != h:
+        return f"returned {r}, the height of the component tree is {h}"
     return None
 
 
@@ -469,7 +469,7 @@ def c02_bounded(tier, seed):
     except Exception:
         res["checker_errors"].append("C02 getMaxComponentDepth scope crashed: " + traceback.format_exc()[-600:])
     res["distinct"] += n_graphs
-    res["bounded"].append({"what": "util.getMaxComponentDepth: raises InvalidFontData iff a cyclic reference is reachable; result > 0 iff the glyph has components; result <= true height",
+    res["bounded"].append({"what": "util.getMaxComponentDepth: raises InvalidFontData iff a cyclic reference is reachable; result == the height of the component tree (> 0 iff the glyph has components)",
                            "bound": f"all {n_graphs} component graphs in scope (3 glyph names + 1 missing name, <= 2 components per glyph; thorough adds 150000 random graphs on 4 names, <= 3 components), every start glyph"})
     # end-to-end observer
     n = 24 if tier == "quick" else 2500
